@@ -1342,7 +1342,9 @@ static Chunk *insert_vbrace(Chunk *pc, bool after, const ParsingFrame &frm)
    }
    bool ref_is_comment = ref->IsComment();      // Issue #3351
 
-   while (ref->IsCommentOrNewline())
+   // the virtual brace opens in front of comments and of the lines of a disabled region
+   while (  ref->IsCommentOrNewline()
+         || ref->Is(CT_IGNORED))
    {
       ref->SetLevel(ref->GetLevel() + 1);
       ref->SetBraceLevel(ref->GetBraceLevel() + 1);
